@@ -16,6 +16,7 @@ CONSTANTS
   MAXRESTART = 0
   UPDENDS = {}
   MAXUPD = 0
+  ADDS = {}
   SECONDBAD = TRUE
   FAILBUDGET = 99
 VIEW View
